@@ -128,7 +128,7 @@ func c15(r *core.Run) {
 				}
 			}
 		}
-		fl := &core.Flow{Fn: hq, Entry: core.StateSet(0).Add(0), Inline: func(cal *ssa.Function) bool { return p.IsPrivateHelper(cal) && cal.Pkg == hq.Pkg }}
+		fl := &core.Flow{Fn: hq, Entry: core.StateSet(0).Add(0), Tags: true, Inline: func(cal *ssa.Function) bool { return p.IsPrivateHelper(cal) && cal.Pkg == hq.Pkg }}
 		fl.BranchOn = func(cond ssa.Value, succ int, st int) (int, bool) {
 			ci := core.Cond(cond)
 			if ci.Kind == "constcmp" && ci.HasFld && ci.Field == qfld && ci.Const != nil && ci.Const.ExactString() == `""` {
@@ -515,13 +515,13 @@ func c15(r *core.Run) {
 					continue
 				}
 				calName, fldName := core.FuncName(cal), fld.String()
-			if cal == lst {
-				calName = "<query-listener>" // role labels: keep the known finding's key stable under renaming
-				if strings.HasSuffix(fld.Struct, "queryEvent") {
-					fldName = "<query-channel>"
+				if cal == lst {
+					calName = "<query-listener>" // role labels: keep the known finding's key stable under renaming
+					if strings.HasSuffix(fld.Struct, "queryEvent") {
+						fldName = "<query-channel>"
+					}
 				}
-			}
-			r.Check(closedFields[fld], "L1", core.FuncName(fn), kind+":"+calName+":ranges-"+fldName, p.InstrPos(c), "the channel is closed somewhere in the library, so the loop can end", "the function ranges over "+fld.String()+" which no library code ever closes: every expired query event leaves its listener goroutine (and channel) parked forever")
+				r.Check(closedFields[fld], "L1", core.FuncName(fn), kind+":"+calName+":ranges-"+fldName, p.InstrPos(c), "the channel is closed somewhere in the library, so the loop can end", "the function ranges over "+fld.String()+" which no library code ever closes: every expired query event leaves its listener goroutine (and channel) parked forever")
 			}
 		}
 	}
